@@ -153,8 +153,9 @@ impl QuicListener {
 
         let address_type = match iter.next() {
             Some(Protocol::Ip6(address)) => match iter.next() {
-                Some(Protocol::Udp(port)) =>
-                    AddressType::Socket(SocketAddr::new(IpAddr::V6(address), port)),
+                Some(Protocol::Udp(port)) => {
+                    AddressType::Socket(SocketAddr::new(IpAddr::V6(address), port))
+                }
                 protocol => {
                     tracing::error!(
                         target: LOG_TARGET,
@@ -165,8 +166,9 @@ impl QuicListener {
                 }
             },
             Some(Protocol::Ip4(address)) => match iter.next() {
-                Some(Protocol::Udp(port)) =>
-                    AddressType::Socket(SocketAddr::new(IpAddr::V4(address), port)),
+                Some(Protocol::Udp(port)) => {
+                    AddressType::Socket(SocketAddr::new(IpAddr::V4(address), port))
+                }
                 protocol => {
                     tracing::error!(
                         target: LOG_TARGET,
@@ -176,12 +178,15 @@ impl QuicListener {
                     return Err(AddressError::InvalidProtocol);
                 }
             },
-            Some(Protocol::Dns(address)) =>
-                handle_dns_type(address.into(), DnsType::Dns, iter.next())?,
-            Some(Protocol::Dns4(address)) =>
-                handle_dns_type(address.into(), DnsType::Dns4, iter.next())?,
-            Some(Protocol::Dns6(address)) =>
-                handle_dns_type(address.into(), DnsType::Dns6, iter.next())?,
+            Some(Protocol::Dns(address)) => {
+                handle_dns_type(address.into(), DnsType::Dns, iter.next())?
+            }
+            Some(Protocol::Dns4(address)) => {
+                handle_dns_type(address.into(), DnsType::Dns4, iter.next())?
+            }
+            Some(Protocol::Dns6(address)) => {
+                handle_dns_type(address.into(), DnsType::Dns6, iter.next())?
+            }
             protocol => {
                 tracing::error!(target: LOG_TARGET, ?protocol, "invalid transport protocol");
                 return Err(AddressError::InvalidProtocol);
@@ -202,8 +207,9 @@ impl QuicListener {
         }
 
         let maybe_peer = match iter.next() {
-            Some(Protocol::P2p(multihash)) =>
-                Some(PeerId::from_multihash(multihash).map_err(AddressError::InvalidPeerId)?),
+            Some(Protocol::P2p(multihash)) => {
+                Some(PeerId::from_multihash(multihash).map_err(AddressError::InvalidPeerId)?)
+            }
             None => None,
             protocol => {
                 tracing::error!(
